@@ -42,7 +42,8 @@ MIN_NONTRIVIAL = 60
 REQUIRED_COUNTERS = ["constructs_due", "constructs_not_due", "module_writer_calls_checked", "crash_points_fired", "recoveries_checked", "race_processes_ok", "midwrite_crashes"]
 REQUIRED_COUNTERS += ["thread_race_constructions"]
 RULE += "; in every other history the source grows with each version and ends in a line that makes the compiler warn"
-REQUIRED_COUNTERS += ["constructs_of_warning_templates"]
+REQUIRED_COUNTERS += ["constructs_of_warning_templates", "failing_writer_propagated"]
+RULE += "; operation construct-failing-writer (a module_writer raising an exception of the Warning family)"
 RULE += "; the templates of the thread race hold control structures (if/else, for, try/except) and every racing render is compared with the solo render of its source"
 SHARDS = {"quick": 32, "thorough": 64}
 
@@ -193,6 +194,33 @@ def run_hist(ops, res, rc, via="template-moddir", cached=None):
                         f.write(data2)
                     os.utime(mp, (M["mtime"], M["mtime"]))
                     M["magic_ok"] = False
+            elif op == "construct-failing-writer":
+                # a module_writer that fails with an exception of the Warning family: when a rewrite is due the failure
+                # is the caller's to see - or, if a Template comes to life all the same, it renders the CURRENT source
+                due = M is None or M["mtime"] < S["mtime"] or not M["magic_ok"]
+
+                def bad_writer(source, dest):
+                    raise UserWarning("this writer declines")
+
+                try:
+                    out = construct(bad_writer).render_unicode()
+                except UserWarning:
+                    res.count("failing_writer_propagated")
+                    if not due:
+                        res.violate("module-writer-calls", "[" + via + "] history %r: no rewrite was due but module_writer was called" % (ops,), replay_case=rc)
+                    if os.path.exists(mp) and M is None:
+                        M = None
+                    continue
+                except Exception as e:
+                    res.violate("construct-raises", "[" + via + "] history %r: construct with a failing module_writer raised %s: %s" % (ops, type(e).__name__, e), replay_case=rc)
+                    return
+                sv = shown_version(out)
+                want = S["version"] if due else M["frm"]
+                if sv != want:
+                    res.violate("stale-after-failed-rewrite", "[" + via + "] history %r: module_writer failed (%s), the Template was constructed all the same and renders version %r, expected %d" % (
+                        ops, "rewrite due: " + why(M, S) if due else "no rewrite due", sv, want), replay_case=rc)
+                if due:
+                    return   # (what is on disk now is not modelled further)
             elif op.startswith("construct"):
                 use_writer = op == "construct-writer"
                 calls = []
@@ -540,7 +568,7 @@ def run_race(case, res):
 
 
 # ------------------------------------------------------------------ plumbing
-OPS = ["src-newer", "src-equal", "src-older", "delete-module", "foreign-magic", "foreign-legacy", "construct", "construct-writer"]
+OPS = ["src-newer", "src-equal", "src-older", "delete-module", "foreign-magic", "foreign-legacy", "construct", "construct-writer", "construct-failing-writer"]
 
 
 def gen_cases(tier, seed):
